@@ -86,12 +86,19 @@ struct TraitOpts {
     params: bool,
     enum_ctx: bool,
     repeat_params: bool,
+    /// 0 = unknown (anything goes), 1 = no repeat() open for this instruction name, 2 = one is open
+    repeat_state: u8,
 }
 
 fn trait_params(rng: &mut Rng, o: &TraitOpts) -> String {
     let mut parts: Vec<String> = Vec::new();
     if o.repeat_params {
-        match rng.below(5) {
+        let r = match o.repeat_state {
+            1 => rng.below(2),
+            2 => 2 + rng.below(3),
+            _ => rng.below(5),
+        };
+        match r {
             0 => parts.push("repeat()".into()),
             1 => parts.push("repeat(vars)".into()),
             2 => parts.push("skip_repeat".into()),
@@ -269,6 +276,7 @@ pub fn gen_struct(rng: &mut Rng, class: Class) -> Item {
 
     let mut bodies: Vec<String> = Vec::new();
     let mut fallible_any = false;
+    let mut open_repeats: Vec<String> = Vec::new();
     for cp in &cps {
         let bundle = *rng.pick(&BUNDLES);
         let hint = match (item.shape, rng.below(6)) {
@@ -280,14 +288,30 @@ pub fn gen_struct(rng: &mut Rng, class: Class) -> Item {
         };
         for instr in bundle {
             fallible_any |= is_fallible(instr);
-            let o = TraitOpts { hint, params: rng.chance(1, 2) || repeat_mode, enum_ctx: false, repeat_params: repeat_mode && rng.chance(2, 3) };
-            bodies.push(trait_attr_body(rng, instr, cp, &o));
+            let is_open = open_repeats.iter().any(|x| x == instr);
+            // mostly well-formed repeat sequences; 1 in 8 anything goes
+            let repeat_state = if rng.chance(1, 8) { 0 } else if is_open { 2 } else { 1 };
+            let o = TraitOpts { hint, params: rng.chance(1, 2) || repeat_mode, enum_ctx: false, repeat_params: repeat_mode && rng.chance(2, 3), repeat_state };
+            let body = trait_attr_body(rng, instr, cp, &o);
+            if body.contains("stop_repeat") {
+                open_repeats.retain(|x| x != instr);
+            }
+            if body.contains("repeat(") {
+                open_repeats.push(instr.to_string());
+            }
+            bodies.push(body);
         }
     }
     if repeat_mode {
         // same instruction name several times with different counterparts, so that the
         // repeat() parameters carry over between them
-        let instr = *rng.pick(&["map", "from", "into", "try_map", "owned_into", "from_ref"]);
+        let mut instr = *rng.pick(&["map", "from", "into", "try_map", "owned_into", "from_ref"]);
+        for _ in 0..8 {
+            if !open_repeats.iter().any(|x| x == instr) {
+                break;
+            }
+            instr = *rng.pick(&["map", "from", "into", "try_map", "owned_into", "from_ref"]);
+        }
         let extra = { let n = rng.range(2, 4); pick_distinct(rng, &["R1", "R2", "R3", "R4"], n) };
         for (i, cp) in extra.iter().enumerate() {
             let p = match (i, rng.below(3)) {
@@ -353,7 +377,11 @@ pub fn gen_struct(rng: &mut Rng, class: Class) -> Item {
         }
     }
 
-    item.type_attrs = wrap(bodies, rng);
+    if rng.chance(1, 8) {
+        let pos = rng.below(bodies.len() as u64 + 1) as usize;
+        bodies.insert(pos, "o2o(allow_unknown)".into());
+    }
+    item.type_attrs = wrap(bodies, rng).into_iter().map(|a| a.replace("#[o2o(o2o(allow_unknown))]", "#[o2o(allow_unknown)]").replace("o2o(allow_unknown)", "allow_unknown").replace("#[allow_unknown]", "#[o2o(allow_unknown)]")).collect();
 
     // members
     if item.shape != Shape::Unit {
@@ -426,14 +454,20 @@ pub fn gen_enum(rng: &mut Rng, class: Class) -> Item {
         item.generics = "<T>".into();
     }
     let primitive = rng.chance(1, 3);
-    let cps: Vec<&str> = if primitive { { let n = rng.range(1, 2); pick_distinct(rng, &["i32", "u8", "String", "&'static str", "char"], n) } } else { { let n = rng.range(1, 3); pick_distinct(rng, &COUNTERPARTS, n) } };
+    let cps: Vec<&str> = if primitive { { let n = rng.range(1, 2); pick_distinct(rng, &["i32", "u8", "String", "u64", "char"], n) } } else { { let n = rng.range(1, 3); pick_distinct(rng, &COUNTERPARTS, n) } };
     let mut bodies: Vec<String> = Vec::new();
     let mut fallible_any = false;
     for cp in &cps {
-        let bundle = *rng.pick(&BUNDLES);
+        let mut bundle = *rng.pick(&BUNDLES);
+        // (variant instruction | literal | pattern) x into_existing is a todo!() in o2o: keep it rare
+        if !rng.chance(1, 10) {
+            while bundle.iter().any(|i| i.contains("existing")) {
+                bundle = *rng.pick(&BUNDLES);
+            }
+        }
         for instr in bundle {
             fallible_any |= is_fallible(instr);
-            let o = TraitOpts { hint: "", params: primitive || rng.chance(1, 2), enum_ctx: true, repeat_params: class == Class::W4Repeat && rng.chance(1, 2) };
+            let o = TraitOpts { hint: "", params: primitive || rng.chance(1, 2), enum_ctx: true, repeat_params: class == Class::W4Repeat && rng.chance(1, 2), repeat_state: 0 };
             bodies.push(trait_attr_body(rng, instr, cp, &o));
         }
     }
@@ -447,7 +481,11 @@ pub fn gen_enum(rng: &mut Rng, class: Class) -> Item {
     if !item.generics.is_empty() {
         where_attrs(rng, &cps, &mut bodies);
     }
-    item.type_attrs = wrap(bodies, rng);
+    if rng.chance(1, 8) {
+        let pos = rng.below(bodies.len() as u64 + 1) as usize;
+        bodies.insert(pos, "o2o(allow_unknown)".into());
+    }
+    item.type_attrs = wrap(bodies, rng).into_iter().map(|a| a.replace("#[o2o(o2o(allow_unknown))]", "#[o2o(allow_unknown)]").replace("o2o(allow_unknown)", "allow_unknown").replace("#[allow_unknown]", "#[o2o(allow_unknown)]")).collect();
 
     let n = rng.range(1, 6);
     let names = pick_distinct(rng, &VARIANT_NAMES, n);
@@ -463,8 +501,18 @@ pub fn gen_enum(rng: &mut Rng, class: Class) -> Item {
                 let is_str = cp.contains("str") || cp.contains("String");
                 let l = if is_str { format!("\"v{}\"", lit) } else if *cp == "char" { format!("'{}'", (b'a' + (lit % 26) as u8) as char) } else { format!("{}", lit * 100) };
                 match rng.below(4) {
-                    0 => attrs.push(format!("pattern({}{} | {})", ded, l, l.replace('1', "9"))),
-                    1 => attrs.push(format!("pattern({}_)", ded)),
+                    0 => {
+                        attrs.push(format!("pattern({}{} | {})", ded, l, l.replace('1', "9")));
+                        if !rng.chance(1, 8) {
+                            attrs.push(format!("into({}{{ {} }})", ded, l));
+                        }
+                    },
+                    1 => {
+                        attrs.push(format!("pattern({}_)", ded));
+                        if !rng.chance(1, 8) {
+                            attrs.push(format!("into({}{{ {} }})", ded, l));
+                        }
+                    },
                     _ => attrs.push(format!("literal({}{})", ded, l)),
                 }
                 if cps.len() == 1 {
@@ -532,7 +580,7 @@ pub fn gen_enum(rng: &mut Rng, class: Class) -> Item {
 /// Catalogue of documented misuses; each adds one or two attributes to a (usually valid)
 /// item.  Every entry leads to a *different* message of validate.rs / attr.rs, so k
 /// injections put ~k keys into the `errors` container.
-pub const N_MISUSES: usize = 40;
+pub const N_MISUSES: usize = 52;
 
 pub fn inject_misuse(rng: &mut Rng, item: &mut Item, which: usize) -> &'static str {
     let cp0 = first_counterpart(item).unwrap_or_else(|| "EntityDto".to_string());
@@ -643,6 +691,27 @@ pub fn inject_misuse(rng: &mut Rng, item: &mut Item, which: usize) -> &'static s
         36 => mem!("member:ghost-no-default", "ghost".to_string()),
         37 => mem!("member:child-without-child_parents", format!("child(lonely{}.path)", rng.below(3))),
         38 => mem!("member:permeating-repeat", "repeat(permeate())".to_string()),
+        // ---- malformed arguments: attribute parsing fails and expansion returns early with one error
+        40 => mem!("syntax:empty-child", "child()".to_string()),
+        41 => mem!("syntax:bad-type-hint", "type_hint(as what)".to_string()),
+        42 => mem!("syntax:bad-repeat-kind", "repeat(bogus)".to_string()),
+        43 => mem!("syntax:bad-parent-inner", "parent([bogus(x)] y)".to_string()),
+        44 => mem!("syntax:ghosts-no-colon", "ghosts(x)".to_string()),
+        45 => ty!("syntax:empty-map", format!("{}()", rng.pick(&["map", "from", "try_into"]))),
+        46 => ty!("syntax:vars-no-braces", format!("map({}| vars(x))", cp0)),
+        47 => ty!("syntax:child_parents-no-type", "child_parents(a)".to_string()),
+        48 => ty!("syntax:empty-where", "where_clause()".to_string()),
+        49 => ty!("syntax:param-twice", format!("into({}| vars(a: {{ 1 }}), vars(b: {{ 2 }}))", cp0)),
+        // ---- allow_unknown: silences the 'misplaced / misnamed' class
+        50 => {
+            let pos = rng.below(item.type_attrs.len() as u64 + 1) as usize;
+            item.type_attrs.insert(pos, "#[o2o(allow_unknown)]".into());
+            "type:allow_unknown"
+        },
+        51 => {
+            item.type_attrs.insert(0, "#[o2o(allow_unknown)]".into());
+            "type:allow_unknown-first"
+        },
         _ => {
             // two default / duplicate dedicated member-level instructions
             if nm == 0 {
